@@ -1,2 +1,598 @@
-//! C04 workload (under construction).
-fn main() {}
+//! C04 — canonical values and value-following Eq / Hash / Ord.
+//!
+//! (a) closure walk: histories of safe public operations whose results are fed
+//!     back as operands (and migrate between widths); every produced value must
+//!     be canonical; sampled pairs must compare, hash and order like integers.
+//! (b) rejecting constructors on out-of-range limbs.
+//! The ill-formed (BITS, LIMBS) grid (c) is a compile-probe monitor in
+//! /verif/probes, driven by ./check.
+
+use num_bigint::BigUint;
+use num_traits::Zero;
+use ruint::{ToUintError, Uint};
+use std::{
+    cmp::Ordering,
+    collections::hash_map::DefaultHasher,
+    hash::{Hash, Hasher},
+    str::FromStr,
+};
+use vmon::{an, au, big, gen, rng::Rng, uint, Arg, Mon};
+
+vmon::widths!(exec; 0, 1, 2, 3, 7, 31, 60, 63, 64, 65, 100, 127, 128, 129, 192, 250, 255, 256, 257, 521);
+
+const XW: &[usize] = &[0, 1, 7, 63, 64, 65, 128, 129, 256];
+
+fn cross_go<const B: usize, const L: usize, const D: usize, const LD: usize>(m: &mut Mon, x: Uint<B, L>) {
+    if let Some(v) = m.must_in("wrapping_from(Uint)", || Uint::<D, LD>::wrapping_from(x)) {
+        m.produce(&v);
+    }
+    if let Some(v) = m.must_in("saturating_from(Uint)", || Uint::<D, LD>::saturating_from(x)) {
+        m.produce(&v);
+    }
+    if let Some(v) = m.must_in("wrapping_to::<Uint>", || x.wrapping_to::<Uint<D, LD>>()) {
+        m.produce(&v);
+    }
+    if let Some(v) = m.must_in("saturating_to::<Uint>", || x.saturating_to::<Uint<D, LD>>()) {
+        m.produce(&v);
+    }
+    if let Some(Err(ToUintError::ValueTooLarge(_, v))) = m.must_in("uint_try_from", || <Uint<D, LD> as ruint::UintTryFrom<Uint<B, L>>>::uint_try_from(x)) {
+        m.produce(&v);
+    }
+}
+
+macro_rules! cross_dispatch {
+    ([$($d:literal),*]) => {
+        fn cross<const B: usize, const L: usize>(m: &mut Mon, dst: usize, x: Uint<B, L>) {
+            match dst {
+                $($d => cross_go::<B, L, $d, { ($d + 63) / 64 }>(m, x),)*
+                _ => panic!("harness: destination width {dst} not in grid"),
+            }
+        }
+    };
+}
+cross_dispatch!([0, 1, 7, 63, 64, 65, 128, 129, 256]);
+
+fn hash_of<T: Hash>(v: &T) -> u64 {
+    let mut h = DefaultHasher::new();
+    v.hash(&mut h);
+    h.finish()
+}
+
+fn exec<const B: usize, const L: usize>(m: &mut Mon, op: &str, a: &[Arg]) {
+    type U<const B: usize, const L: usize> = Uint<B, L>;
+    // produce one value / an optional value / several
+    macro_rules! one {
+        ($label:literal, $e:expr) => {
+            if let Some(v) = m.must_in($label, || $e) {
+                m.produce(&v);
+            }
+        };
+    }
+    macro_rules! opt {
+        ($label:literal, $e:expr) => {
+            if let Some(Some(v)) = m.must_in($label, || $e) {
+                m.produce(&v);
+            }
+        };
+    }
+    match op {
+        // ------------------------------------------------ binary operations on pool values
+        "arith2" => {
+            let (x, y): (U<B, L>, U<B, L>) = (uint(a[0].u()), uint(a[1].u()));
+            one!("wrapping_add", x.wrapping_add(y));
+            one!("wrapping_sub", x.wrapping_sub(y));
+            one!("wrapping_mul", x.wrapping_mul(y));
+            one!("saturating_add", x.saturating_add(y));
+            one!("saturating_sub", x.saturating_sub(y));
+            one!("saturating_mul", x.saturating_mul(y));
+            one!("overflowing_add", x.overflowing_add(y).0);
+            one!("overflowing_sub", x.overflowing_sub(y).0);
+            one!("overflowing_mul", x.overflowing_mul(y).0);
+            opt!("checked_add", x.checked_add(y));
+            opt!("checked_sub", x.checked_sub(y));
+            opt!("checked_mul", x.checked_mul(y));
+            one!("abs_diff", x.abs_diff(y));
+            one!("op+", x + y);
+            one!("op-", x - y);
+            one!("op*", x * y);
+            one!("op&", x & y);
+            one!("op|", x | y);
+            one!("op^", x ^ y);
+            one!("min", x.min(y));
+            one!("max", x.max(y));
+            if !gen::is_zero(a[1].u()) {
+                one!("op/", x / y);
+                one!("op%", x % y);
+                one!("div_ceil", x.div_ceil(y));
+                if let Some((q, r)) = m.must_in("div_rem", || x.div_rem(y)) {
+                    m.produce(&q);
+                    m.produce(&r);
+                }
+            }
+            opt!("checked_div", x.checked_div(y));
+            opt!("checked_rem", x.checked_rem(y));
+            opt!("checked_next_multiple_of", x.checked_next_multiple_of(y));
+            one!("gcd", x.gcd(y));
+            opt!("lcm", x.lcm(y));
+            if let Some((g, s, t, _)) = m.must_in("gcd_extended", || x.gcd_extended(y)) {
+                m.produce(&g);
+                m.produce(&s);
+                m.produce(&t);
+            }
+            one!("reduce_mod", x.reduce_mod(y));
+            opt!("inv_mod", x.inv_mod(y));
+            one!("Sum", [x, y, x].iter().sum::<U<B, L>>());
+            one!("Product", [x, y].iter().product::<U<B, L>>());
+        }
+        "arith3" => {
+            let (x, y, z): (U<B, L>, U<B, L>, U<B, L>) = (uint(a[0].u()), uint(a[1].u()), uint(a[2].u()));
+            one!("add_mod", x.add_mod(y, z));
+            one!("mul_mod", x.mul_mod(y, z));
+            if B <= 256 || big::big(a[1].u()).bits() <= 64 {
+                one!("pow_mod", x.pow_mod(y, z));
+            }
+        }
+        "pow" => {
+            // exponent kept small enough to be cheap; any magnitude is fine for canonicity
+            let (x, e): (U<B, L>, U<B, L>) = (uint(a[0].u()), uint(a[1].u()));
+            one!("pow", x.pow(e));
+            one!("overflowing_pow", x.overflowing_pow(e).0);
+            one!("saturating_pow", x.saturating_pow(e));
+            opt!("checked_pow", x.checked_pow(e));
+        }
+        // ------------------------------------------------ unary / scalar-parameter operations
+        "unary" => {
+            let x: U<B, L> = uint(a[0].u());
+            let s = a[1].us();
+            one!("wrapping_neg", x.wrapping_neg());
+            one!("overflowing_neg", x.overflowing_neg().0);
+            opt!("checked_neg", x.checked_neg());
+            one!("op-neg", -x);
+            one!("op!", !x);
+            one!("not", x.not());
+            one!("reverse_bits", x.reverse_bits());
+            opt!("checked_next_power_of_two", x.checked_next_power_of_two());
+            opt!("inv_ring", x.inv_ring());
+            one!("op<<", x << s);
+            one!("op>>", x >> s);
+            one!("wrapping_shl", x.wrapping_shl(s));
+            one!("wrapping_shr", x.wrapping_shr(s));
+            one!("overflowing_shl", x.overflowing_shl(s).0);
+            one!("overflowing_shr", x.overflowing_shr(s).0);
+            one!("saturating_shl", x.saturating_shl(s));
+            opt!("checked_shl", x.checked_shl(s));
+            opt!("checked_shr", x.checked_shr(s));
+            one!("arithmetic_shr", x.arithmetic_shr(s));
+            one!("rotate_left", x.rotate_left(s));
+            one!("rotate_right", x.rotate_right(s));
+            one!("set_bit(true)", {
+                let mut z = x;
+                z.set_bit(s, true);
+                z
+            });
+            one!("set_bit(false)", {
+                let mut z = x;
+                z.set_bit(s, false);
+                z
+            });
+            if s >= 1 && s <= B + 2 {
+                one!("root", x.root(s));
+            }
+            one!("op<<Uint", x << x);
+            one!("op>>Uint", x >> x);
+        }
+        // ------------------------------------------------ constants
+        "consts" => {
+            one!("ZERO", U::<B, L>::ZERO);
+            one!("ONE", U::<B, L>::ONE);
+            one!("MIN", U::<B, L>::MIN);
+            one!("MAX", U::<B, L>::MAX);
+            one!("default", U::<B, L>::default());
+            one!("Bits::ZERO", ruint::Bits::<B, L>::ZERO.into_inner());
+        }
+        // ------------------------------------------------ conversions from primitives and floats
+        "from_prims" => {
+            let v = a[0].n();
+            macro_rules! prim {
+                ($t:ty) => {
+                    let p = v as $t;
+                    one!("wrapping_from", U::<B, L>::wrapping_from(p));
+                    one!("saturating_from", U::<B, L>::saturating_from(p));
+                    if let Some(r) = m.must_in("try_from", || U::<B, L>::try_from(p)) {
+                        match r {
+                            Ok(x) | Err(ToUintError::ValueTooLarge(_, x)) | Err(ToUintError::ValueNegative(_, x)) => m.produce(&x),
+                            Err(ToUintError::NotANumber(_)) => {}
+                        }
+                    }
+                };
+            }
+            prim!(u8);
+            prim!(u16);
+            prim!(u32);
+            prim!(u64);
+            prim!(u128);
+            prim!(usize);
+            prim!(i8);
+            prim!(i16);
+            prim!(i32);
+            prim!(i64);
+            prim!(i128);
+            prim!(isize);
+            one!("from(bool)", U::<B, L>::wrapping_from(v & 1 == 1));
+        }
+        "from_floats" => {
+            let f = f64::from_bits(a[0].n() as u64);
+            for fv in [f, -f] {
+                one!("wrapping_from(f64)", U::<B, L>::wrapping_from(fv));
+                one!("saturating_from(f64)", U::<B, L>::saturating_from(fv));
+                one!("wrapping_from(f32)", U::<B, L>::wrapping_from(fv as f32));
+                one!("saturating_from(f32)", U::<B, L>::saturating_from(fv as f32));
+                if let Some(r) = m.must_in("try_from(f64)", || U::<B, L>::try_from(fv)) {
+                    match r {
+                        Ok(x) | Err(ToUintError::ValueTooLarge(_, x)) | Err(ToUintError::ValueNegative(_, x)) => m.produce(&x),
+                        Err(ToUintError::NotANumber(_)) => {}
+                    }
+                }
+            }
+            opt!("approx_pow2", U::<B, L>::approx_pow2(f));
+            opt!("approx_pow2(small)", U::<B, L>::approx_pow2(f % (B as f64 + 2.0)));
+        }
+        // ------------------------------------------------ decoders
+        "from_bytes" => {
+            let b = a[0].b();
+            opt!("try_from_be_slice", U::<B, L>::try_from_be_slice(b));
+            opt!("try_from_le_slice", U::<B, L>::try_from_le_slice(b));
+        }
+        "from_text" => {
+            let s = a[0].s();
+            let radix = a[1].n() as u64;
+            if let Some(Ok(v)) = m.must_in("from_str_radix", || U::<B, L>::from_str_radix(s, radix)) {
+                m.produce(&v);
+            }
+            if let Some(Ok(v)) = m.must_in("from_str", || U::<B, L>::from_str(s)) {
+                m.produce(&v);
+            }
+        }
+        "from_digits" => {
+            let d = a[0].u();
+            let base = a[1].n() as u64;
+            if let Some(Ok(v)) = m.must_in("from_base_be", || U::<B, L>::from_base_be(base, d.iter().copied())) {
+                m.produce(&v);
+            }
+            if let Some(Ok(v)) = m.must_in("from_base_le", || U::<B, L>::from_base_le(base, d.iter().copied())) {
+                m.produce(&v);
+            }
+        }
+        // ------------------------------------------------ (b) constructors that must reject or mask
+        "from_limbs" => {
+            let s = a[0].u();
+            let bv = big::big(s);
+            let fits = big::fits(&bv, B);
+            if let Some((v, f)) = m.must_in("overflowing_from_limbs_slice", || U::<B, L>::overflowing_from_limbs_slice(s)) {
+                m.produce(&v);
+                m.eq("overflowing_from_limbs_slice.flag", &f, &!fits);
+            }
+            one!("wrapping_from_limbs_slice", U::<B, L>::wrapping_from_limbs_slice(s));
+            one!("saturating_from_limbs_slice", U::<B, L>::saturating_from_limbs_slice(s));
+            if let Some(r) = m.must_in("checked_from_limbs_slice", || U::<B, L>::checked_from_limbs_slice(s)) {
+                m.eq("checked_from_limbs_slice.rejects", &r.is_none(), &!fits);
+                if let Some(v) = r {
+                    m.produce(&v);
+                }
+            }
+            if fits {
+                one!("from_limbs_slice", U::<B, L>::from_limbs_slice(s));
+            } else {
+                m.must_panic(|| U::<B, L>::from_limbs_slice(s), "out-of-range limbs");
+            }
+            if s.len() == L {
+                let mut arr = [0u64; L];
+                arr.copy_from_slice(s);
+                if fits {
+                    one!("from_limbs", U::<B, L>::from_limbs(arr));
+                } else {
+                    m.must_panic(|| U::<B, L>::from_limbs(arr), "out-of-range limbs");
+                }
+            }
+        }
+        // ------------------------------------------------ random / arbitrary generators
+        "generators" => {
+            let seed = a[0].n() as u64;
+            {
+                use rand_08::{distributions::Standard, prelude::Distribution, Rng as _, SeedableRng};
+                let mut g = rand_08::rngs::StdRng::seed_from_u64(seed);
+                one!("rand08.gen", g.gen::<U<B, L>>());
+                one!("rand08.Standard.sample", Distribution::<U<B, L>>::sample(&Standard, &mut g));
+            }
+            {
+                use rand_09::{distr::StandardUniform, prelude::Distribution, Rng as _, SeedableRng};
+                let mut g = rand_09::rngs::StdRng::seed_from_u64(seed);
+                one!("rand09.random", g.random::<U<B, L>>());
+                one!("rand09.StandardUniform.sample", Distribution::<U<B, L>>::sample(&StandardUniform, &mut g));
+                one!("random_with", U::<B, L>::random_with(&mut g));
+                one!("randomize_with", {
+                    let mut z = U::<B, L>::MAX;
+                    z.randomize_with(&mut g);
+                    z
+                });
+                one!("random", U::<B, L>::random());
+                one!("randomize", {
+                    let mut z = U::<B, L>::ZERO;
+                    z.randomize();
+                    z
+                });
+            }
+            {
+                use arbitrary::{Arbitrary, Unstructured};
+                let mut r = Rng::new(seed, 7);
+                let len = r.below(2 * ((B + 7) / 8) + 2);
+                let mut bytes = r.bytes(len);
+                if r.bool() {
+                    bytes.iter_mut().for_each(|b| *b = 0xff);
+                }
+                let mut u = Unstructured::new(&bytes);
+                if let Some(Ok(v)) = m.must_in("arbitrary", || U::<B, L>::arbitrary(&mut u)) {
+                    m.produce(&v);
+                }
+            }
+            {
+                use proptest::{arbitrary::any, strategy::{Strategy, ValueTree}, test_runner::{Config, RngAlgorithm, TestRng, TestRunner}};
+                let mut sb = [0u8; 32];
+                sb[..8].copy_from_slice(&seed.to_le_bytes());
+                let mut runner = TestRunner::new_with_rng(Config::default(), TestRng::from_seed(RngAlgorithm::ChaCha, &sb));
+                if let Some(Ok(mut tree)) = m.must_in("proptest.new_tree", || any::<U<B, L>>().new_tree(&mut runner)) {
+                    one!("proptest.current", tree.current());
+                    for _ in 0..6 {
+                        if !tree.simplify() {
+                            break;
+                        }
+                        one!("proptest.simplified", tree.current());
+                    }
+                    if tree.complicate() {
+                        one!("proptest.complicated", tree.current());
+                    }
+                }
+                if let Some(Ok(tree)) = m.must_in("proptest.bits.new_tree", || any::<ruint::Bits<B, L>>().new_tree(&mut runner)) {
+                    one!("proptest.bits.current", tree.current().into_inner());
+                }
+            }
+            {
+                use quickcheck::{Arbitrary, Gen};
+                let mut g = Gen::new(1 + (seed % 200) as usize);
+                one!("quickcheck.arbitrary", U::<B, L>::arbitrary(&mut g));
+            }
+        }
+        // ------------------------------------------------ migration between widths
+        "cross" => {
+            let x: U<B, L> = uint(a[0].u());
+            cross::<B, L>(m, a[1].us(), x);
+        }
+        // ------------------------------------------------ comparisons follow the numeric value
+        "cmp" => {
+            let (x, y): (U<B, L>, U<B, L>) = (uint(a[0].u()), uint(a[1].u()));
+            let e: Ordering = big::big(a[0].u()).cmp(&big::big(a[1].u()));
+            m.obs(|| format!("ordering={e:?}"));
+            if let Some(v) = m.must_in("==", || x == y) {
+                m.eq("eq", &v, &(e == Ordering::Equal));
+            }
+            if let Some(v) = m.must_in("!=", || x != y) {
+                m.eq("ne", &v, &(e != Ordering::Equal));
+            }
+            if let Some((hx, hy)) = m.must_in("hash", || (hash_of(&x), hash_of(&y))) {
+                if e == Ordering::Equal {
+                    m.eq("hash.equal-values", &hx, &hy);
+                }
+            }
+            if let Some(v) = m.must_in("cmp", || x.cmp(&y)) {
+                m.eq("cmp", &v, &e);
+            }
+            if let Some(v) = m.must_in("partial_cmp", || x.partial_cmp(&y)) {
+                m.eq("partial_cmp", &v, &Some(e));
+            }
+            if let Some(v) = m.must_in("<", || x < y) {
+                m.eq("lt", &v, &(e == Ordering::Less));
+            }
+            if let Some(v) = m.must_in("<=", || x <= y) {
+                m.eq("le", &v, &(e != Ordering::Greater));
+            }
+            if let Some(v) = m.must_in(">", || x > y) {
+                m.eq("gt", &v, &(e == Ordering::Greater));
+            }
+            if let Some(v) = m.must_in(">=", || x >= y) {
+                m.eq("ge", &v, &(e != Ordering::Less));
+            }
+            let (lo, hi) = if e == Ordering::Greater { (a[1].u(), a[0].u()) } else { (a[0].u(), a[1].u()) };
+            if let Some(v) = m.must_in("min", || x.min(y)) {
+                m.eq_uint("min", &v, lo);
+            }
+            if let Some(v) = m.must_in("max", || x.max(y)) {
+                m.eq_uint("max", &v, hi);
+            }
+            if let Some(v) = m.must_in("is_zero", || x.is_zero()) {
+                m.eq("is_zero", &v, &gen::is_zero(a[0].u()));
+            }
+        }
+        _ => panic!("harness: unknown op {op}"),
+    }
+    let _ = BigUint::zero();
+}
+
+// ------------------------------------------------------------------------------------------- walk
+
+struct Pools {
+    widths: Vec<usize>,
+    pools: Vec<Vec<Vec<u64>>>,
+}
+
+impl Pools {
+    fn new() -> Self {
+        let widths = WIDTHS.to_vec();
+        let pools = widths
+            .iter()
+            .map(|&b| {
+                let mut p = gen::boundary(b);
+                p.truncate(24);
+                p.push(gen::max(b));
+                p
+            })
+            .collect();
+        Pools { widths, pools }
+    }
+    fn idx(&self, bits: usize) -> Option<usize> {
+        self.widths.iter().position(|&w| w == bits)
+    }
+    fn pick(&self, r: &mut Rng, bits: usize) -> Vec<u64> {
+        let p = &self.pools[self.idx(bits).unwrap()];
+        p[r.below(p.len())].clone()
+    }
+    fn absorb(&mut self, r: &mut Rng, produced: &mut Vec<(usize, Vec<u64>)>) -> usize {
+        let mut fresh = 0;
+        for (b, v) in produced.drain(..) {
+            if let Some(i) = self.idx(b) {
+                let p = &mut self.pools[i];
+                if !p.contains(&v) {
+                    fresh += 1;
+                    if p.len() < 96 {
+                        p.push(v);
+                    } else {
+                        let k = r.below(p.len());
+                        p[k] = v;
+                    }
+                }
+            }
+        }
+        fresh
+    }
+}
+
+fn step(m: &mut Mon, pools: &mut Pools, r: &mut Rng, bits: usize) {
+    let l = gen::nlimbs(bits);
+    let a = pools.pick(r, bits);
+    let b = pools.pick(r, bits);
+    let (op, args): (&str, Vec<Arg>) = match r.below(24) {
+        0..=5 => ("arith2", vec![au(&a), au(&b)]),
+        6 | 7 => {
+            let c = pools.pick(r, bits);
+            ("arith3", vec![au(&a), au(&b), au(&c)])
+        }
+        8 => {
+            let e = if r.bool() { gen::small(r.below(70) as u64, bits) } else { gen::with_bit_len(r, bits.min(12), bits) };
+            ("pow", vec![au(&a), au(&e)])
+        }
+        9..=12 => {
+            let s = match r.below(5) {
+                0 => r.below(bits + 70),
+                1 => 64 * r.below(l + 2),
+                2 => bits.saturating_sub(r.below(2)),
+                3 => usize::MAX >> r.below(64),
+                _ => r.below(bits + 1),
+            };
+            ("unary", vec![au(&a), an(s)])
+        }
+        13 => ("consts", vec![]),
+        14 => ("from_prims", vec![Arg::N((u128::from(gen::alpha_limb(r)) << 64) | u128::from(gen::alpha_limb(r)))]),
+        15 => {
+            let f = match r.below(4) {
+                0 => (bits as f64 + r.below(3) as f64 - 1.0).exp2(),
+                1 => f64::from_bits(r.u64()),
+                2 => (r.u64() >> r.below(64)) as f64 + 0.5,
+                _ => big::big(&a).to_string().parse::<f64>().unwrap_or(0.0),
+            };
+            ("from_floats", vec![Arg::N(u128::from(f.to_bits()))])
+        }
+        16 => {
+            let nb = (bits + 7) / 8;
+            let len = r.below(nb + 3);
+            let mut bytes = r.bytes(len);
+            match r.below(3) {
+                0 => bytes.iter_mut().for_each(|x| *x = 0xff),
+                1 if !bytes.is_empty() => bytes[0] = 0,
+                _ => {}
+            }
+            ("from_bytes", vec![Arg::B(bytes)])
+        }
+        17 => {
+            let radix = *r.pick(&[2u64, 8, 10, 16, 36, 64]);
+            let v = big::big(&a) + if r.chance(1, 4) { big::p2(bits) } else { BigUint::zero() };
+            let s = if radix == 64 { v.to_str_radix(10) } else { v.to_str_radix(radix as u32) };
+            let s = match (radix, r.below(3)) {
+                (16, 0) => format!("0x{s}"),
+                (2, 0) => format!("0b{s}"),
+                (8, 0) => format!("0o{s}"),
+                _ => s,
+            };
+            ("from_text", vec![Arg::S(s), Arg::N(radix.into())])
+        }
+        18 => {
+            let base = *r.pick(&[2u64, 10, 256, 1 << 32, u64::MAX]);
+            let n = r.below(2 * l + 4);
+            let d: Vec<u64> = (0..n).map(|_| r.u64() % base).collect();
+            ("from_digits", vec![au(&d), Arg::N(base.into())])
+        }
+        19 | 20 => {
+            let len = r.below(l + 3);
+            let mut s = gen::slice(r, len);
+            if l > 0 && len >= l && r.bool() {
+                s[l - 1] = gen::mask(bits).wrapping_add(r.below(3) as u64);
+            }
+            ("from_limbs", vec![au(&s)])
+        }
+        21 => ("generators", vec![Arg::N(u128::from(r.u64()))]),
+        _ => ("cross", vec![au(&a), an(*r.pick(XW))]),
+    };
+    m.produced.clear();
+    m.case_always(op, bits, args);
+    let mut produced = std::mem::take(&mut m.produced);
+    let fresh = pools.absorb(r, &mut produced);
+    m.note_add("values_produced_fresh", fresh as u64);
+}
+
+fn main() {
+    let mut m = Mon::new("C04", dispatch);
+    if !m.replay_if_requested() {
+        let shard = m.cfg.shard;
+        let mut r = m.stream(&format!("c04.walk.{shard}"), 0);
+        let mut pools = Pools::new();
+        let steps = m.iters(40_000);
+        // weighted towards non-aligned widths
+        let weights: Vec<usize> = WIDTHS.iter().map(|&b| if b % 64 == 0 { 1 } else { 3 }).collect();
+        let total: usize = weights.iter().sum();
+        for i in 0..steps {
+            if i % 256 == 0 && m.time_up() {
+                break;
+            }
+            let mut k = r.below(total);
+            let mut bits = WIDTHS[0];
+            for (j, w) in weights.iter().enumerate() {
+                if k < *w {
+                    bits = WIDTHS[j];
+                    break;
+                }
+                k -= w;
+            }
+            if !m.width_enabled(bits) {
+                continue;
+            }
+            step(&mut m, &mut pools, &mut r, bits);
+            // after every batch: sampled pairs must compare like their values
+            if i % 8 == 7 {
+                let a = pools.pick(&mut r, bits);
+                let b = match r.below(3) {
+                    0 => a.clone(),
+                    _ => pools.pick(&mut r, bits),
+                };
+                m.case_always("cmp", bits, vec![au(&a), au(&b)]);
+                // near neighbours: differ in exactly one limb
+                if !a.is_empty() {
+                    let mut c = a.clone();
+                    let j = r.below(c.len());
+                    c[j] ^= 1 << r.below(64);
+                    let c = gen::canon(c, bits);
+                    m.case_always("cmp", bits, vec![au(&a), au(&c)]);
+                }
+            }
+        }
+        m.note("history_steps_per_shard", serde_json::json!(steps));
+    }
+    m.finish();
+}
